@@ -1,4 +1,5 @@
 """C04 — read and write scopes are enforced on every connection"""
+from tiecommon import TIE_ACCESS
 from lagcommon import LagMode, LAG_RULE
 from hubcommon import HubMode
 from relaycommon import RelayMode
@@ -12,6 +13,9 @@ P = "Relay.Props.C04"
 THEOREMS = [(f"Hub.{n}", P) for n in ["nonwriter_silent", "sent_grows_only_by_writers", "nonreader_deaf", "caps_fixed",
                                       "no_scope_no_admission", "scopes_only_read_write", "pumps_guard_scopes"]] + [("Hub.run_inv", "Relay.Props.HubInv")]
 RULE = RULE + LAG_RULE
+
+# the scopes a connection gets are the ones the session handler copies into the connection token: tied by translation
+THEOREMS = THEOREMS + TIE_ACCESS
 
 
 
